@@ -182,6 +182,15 @@ def prop(case):
         order.append(pool.pop(r % len(pool))); r //= 3
     keep = [h for i, h in enumerate(order) if (case['hdr'] >> i) & 1 or i < 2]
     out = ['(DELAYFILE'] + keep
+    # blocks of one instance may spell its name differently (with / without backslashes) - but only when no path of that instance is annotated in
+    # more than one block: which of two annotations of one path wins is not part of the statement once the spelling differs (the reader groups
+    # blocks by spelling), so that combination is not generated
+    annotated, repeated = {}, set()
+    for iname, _, ents in blocks:
+        paths = {(li, ip) for _, kind, li, pols, _ in ents if kind == 'io' for ip in pols}
+        if paths & annotated.get(iname, set()):
+            repeated.add(iname)
+        annotated.setdefault(iname, set()).update(paths)
     for bi, (iname, ctype, ents) in enumerate(blocks):
         entries = [e[0] for e in ents]
         for _, kind, li, pols, nums in ents:          # ground truth in file order: a later entry overrides an earlier one
@@ -193,7 +202,7 @@ def prop(case):
                 arr[:, li, ip, 1] = nums[1]
         out.append('(CELL')
         out.append(f'  (CELLTYPE "{ctype}")')
-        out.append(f'  (INSTANCE {sdf_name(iname, plain=(bi + case["seed"]) % 3 == 0)})' if iname is not None else '  (INSTANCE)')      # blocks of one instance may spell its name differently
+        out.append(f'  (INSTANCE {sdf_name(iname, plain=(bi + case["seed"]) % 3 == 0 and iname not in repeated)})' if iname is not None else '  (INSTANCE)')      # blocks of one instance may spell its name differently
         if bi % 3 == 1:
             out.append('  (TIMINGCHECK (WIDTH (posedge CLK) (0.284:0.284:0.284)) (SETUP (negedge D) (posedge CLK) (0.620:0.643:0.643)))')
         half = len(entries) // 2 if bi % 2 else len(entries)
